@@ -182,7 +182,7 @@ def finish(ck: Checker, started: float, seed: int, error: Optional[str] = None) 
         "violations": len(new_violations),
     }
     os.makedirs(EVIDENCE_DIR, exist_ok=True)
-    if ck.only_key is None:
+    if ck.only_key is None and os.environ.get("SA_NO_EVIDENCE") != "1":
         with open(os.path.join(EVIDENCE_DIR, f"{ck.prop_id}.json"), "w") as f:
             json.dump(evidence, f, indent=1, sort_keys=False, default=str)
 
